@@ -117,3 +117,67 @@ def summarise(hit, funcs=None):
             "anchored_functions_not_reached": unreached,
             "per_function": dict(sorted(report.items())),
             "hit_lines": {rel: ranges(v) for rel, v in sorted(byfile.items())}}
+
+
+# ---- branches ---------------------------------------------------------------
+
+def _branch_sites(code, out, rel):
+    """conditional jumps of a code object: {(qualname, offset): (line, {dest offsets})}"""
+    import dis
+    import types
+    ins = list(dis.get_instructions(code))
+    nxt = {a.offset: b.offset for a, b in zip(ins, ins[1:])}
+    for i in ins:
+        name = i.opname
+        if name.startswith("POP_JUMP_") or name in ("FOR_ITER", "SEND") or \
+                name.startswith("JUMP_IF_"):
+            dests = {i.argval}
+            if i.offset in nxt:
+                dests.add(nxt[i.offset])
+            line = i.positions.lineno if i.positions else None
+            out[(code.co_qualname, i.offset)] = (line, dests)
+    for c in code.co_consts:
+        if isinstance(c, types.CodeType):
+            _branch_sites(c, out, rel)
+
+
+def branch_sites():
+    res = {}
+    for rel in FILES:
+        path = os.path.join(SRC, rel)
+        try:
+            with open(path, encoding="utf-8") as f:
+                code = compile(f.read(), path, "exec")
+        except (OSError, SyntaxError):
+            continue
+        out = {}
+        _branch_sites(code, out, rel)
+        res[rel] = out
+    return res
+
+
+def summarise_branches(hit):
+    """hit: set of (relfile, qualname, src offset, dst offset) observed.  A
+    conditional jump is fully covered when both of its destinations were
+    reached; reported per function: jumps seen / both ways, and the lines of
+    jumps taken one way only."""
+    seen = {}
+    for rel, q, src, dst in hit:
+        seen.setdefault((rel, q, src), set()).add(dst)
+    sites = branch_sites()
+    per, tot, both = {}, 0, 0
+    for (rel, q, src), dests in seen.items():
+        line = sites.get(rel, {}).get((q, src), (None, None))[0]
+        e = per.setdefault(f"{rel}::{q}", {"jumps": 0, "both_ways": 0, "one_way_lines": []})
+        e["jumps"] += 1
+        tot += 1
+        if len(dests) >= 2:
+            e["both_ways"] += 1
+            both += 1
+        elif line is not None:
+            e["one_way_lines"].append(line)
+    for e in per.values():
+        e["one_way_lines"] = ranges(set(e["one_way_lines"]))
+    return {"jumps_reached": tot, "taken_both_ways": both,
+            "per_function": dict(sorted(per.items())),
+            "raw": sorted([rel, q, src, dst] for rel, q, src, dst in hit)}
